@@ -33,7 +33,9 @@ func (generator *chunkIDGenerator) Generate() string {
 	} else {
 		generator.sequence++
 	}
+	// use the epoch, not the current reading: if the wall clock has stepped back, IDs must still sort in creation order
+	nextEpoch := generator.epochNano
 	nextSequence := generator.sequence
 	generator.Unlock()
-	return fmt.Sprintf("%019d-%08d"+generator.suffix, nextTimestamp, nextSequence)
+	return fmt.Sprintf("%019d-%08d"+generator.suffix, nextEpoch, nextSequence)
 }
